@@ -370,6 +370,8 @@ def check_C12(tier, seed):
     except common.CheckFailure as e:
         rep.violation_noinput("model run failed", {"error": str(e)})
         return rep.finish()
+    # extraction + glue against the kernel: sampled replays (model cases in the observed lock order) proved by vm_compute
+    common.kernel_crosscheck(rep, "conc", [mcases[i] for i in idx], 150 if thorough else 60)
     dis = []
     for i, mo in zip(idx, mout):
         faults = cases[i].split()[3] != "u"
